@@ -667,6 +667,12 @@ func (r *runner) template() string {
 			txs = append(txs, d.tx)
 		}
 	}
+	for _, t := range txs[1:] {
+		if t.MsgTx().HasWitness() {
+			mining.AddWitnessCommitment(cb, txs) // the template commits to the witness data it carries
+			break
+		}
+	}
 	blk := r.e.makeBlock(best.Hash, r.e.lastTs+1, txs)
 	if err := r.e.chain.CheckConnectBlockTemplate(blk); err != nil {
 		if debug {
